@@ -110,7 +110,7 @@ Init ==
 OMask(o) ==
   LET k == Kinds[o] IN
   IF yanked[o] THEN {}
-  ELSE IF k = "sock" THEN
+  ELSE IF k \in {"sock", "adp"} THEN
        (IF rdata[o] > 0 \/ peer[o] # "open" THEN {"IN"} ELSE {})
        \cup (IF ~wfull[o] THEN {"OUT"} ELSE {})
        \cup (IF peer[o] = "reset" THEN {"HUP", "ERR"} ELSE {})
@@ -142,12 +142,14 @@ TryRead(o) ==
   ELSE IF peer[o] = "reset" THEN "errno"
   ELSE IF rdata[o] > 0 THEN "data"
   ELSE IF Kinds[o] = "reg" THEN "eof"
-  ELSE IF peer[o] = "closed" /\ Kinds[o] \in {"sock", "pipeR"} THEN "eof"
+  ELSE IF peer[o] = "closed" /\ Kinds[o] \in {"sock", "adp", "pipeR"} THEN "eof"
   ELSE "wouldblock"
 
 TryWrite(o) ==
   IF yanked[o] THEN "data"
   ELSE IF Kinds[o] \in {"pipeR", "lst"} THEN "errno"
+  \* the first write after the peer's orderly close still succeeds (the peer answers with a reset)
+  ELSE IF peer[o] = "closed" /\ Kinds[o] \in {"sock", "adp"} /\ ~wfull[o] THEN "data"
   ELSE IF peer[o] # "open" THEN "errno"
   ELSE IF wfull[o] THEN "wouldblock"
   ELSE "data"
@@ -183,7 +185,7 @@ Start(d, o) ==
   /\ CanCmd /\ nop < MaxOps /\ (IF d = "R" THEN "read" ELSE "write") \in Cmds
   /\ (Class = "runpending" => stack = <<>>)   \* handlers start nothing new, so RunPending can terminate
   /\ ~oclosed[o]
-  /\ (d = "R" => Kinds[o] # "pipeW") /\ (d = "W" => Kinds[o] \in {"sock", "pipeW", "pkt", "mcp"})
+  /\ (d = "R" => Kinds[o] # "pipeW") /\ (d = "W" => Kinds[o] \in {"sock", "adp", "pipeW", "pkt", "mcp"})
   \* chain scenarios: only immediately completable operations (data buffered / room to write)
   /\ (Class = "chain" => IF d = "R" THEN rdata[o] > 0 ELSE ~wfull[o])
   /\ (d = "R" => "R" \notin interest[o]) /\ (d = "W" => "W" \notin interest[o])
@@ -195,7 +197,7 @@ Start(d, o) ==
   /\ UNCHANGED <<libvars, envvars, inpoll, batch, bi, bphase, pq, npost, drain, dpolls, done>>
 
 Cancel(o) ==
-  /\ CanCmd /\ "cancel" \in Cmds /\ Kinds[o] \in {"sock", "pipeR", "pipeW", "reg"} /\ ~oclosed[o]
+  /\ CanCmd /\ "cancel" \in Cmds /\ Kinds[o] \in {"sock", "adp", "pipeR", "pipeW", "reg"} /\ ~oclosed[o]
   /\ ncmd' = ncmd + 1
   /\ stack' = Push(<<CancelFrame(o, "R")>>)
   /\ Emit([Z EXCEPT !.ev = "CancelB", !.o = o])
@@ -308,15 +310,18 @@ Complete(op, err, inl) ==
 DoTry ==
   /\ stack # <<>> /\ Top.k = "try"
   /\ LET o == Top.o  d == Top.d  op == Top.id
-         inl == Top.first /\ dispatched < Limit          \* the wrapped callback of the inline path
-         now_ == ~Top.first \/ dispatched < Limit         \* attempt the syscall now?
+         \* the AsyncAdapter always defers the first attempt to the poller and does no depth accounting
+         inl == Top.first /\ dispatched < Limit /\ Kinds[o] # "adp"   \* the wrapped callback of the inline path
+         now_ == ~Top.first \/ (dispatched < Limit /\ Kinds[o] # "adp") \* attempt the syscall now?
          res == IF ~now_ THEN "wouldblock" ELSE IF d = "R" THEN TryRead(o) ELSE TryWrite(o)
      IN
      /\ rop' = IF d = "R" /\ Top.first THEN [rop EXCEPT ![o] = op] ELSE rop
      /\ wop' = IF d = "W" /\ Top.first THEN [wop EXCEPT ![o] = op] ELSE wop
+     /\ peer' = IF res = "data" /\ d = "W" /\ peer[o] = "closed" THEN [peer EXCEPT ![o] = "reset"] ELSE peer
      /\ IF res = "data" THEN
             /\ Complete(op, "nil", inl)
-            /\ rdata' = IF d = "R" THEN [rdata EXCEPT ![o] = @ - 1] ELSE rdata
+            /\ rdata' = IF d = "R" THEN [rdata EXCEPT ![o] = @ - 1]
+                         ELSE IF peer[o] = "closed" THEN [rdata EXCEPT ![o] = 0] ELSE rdata
             /\ rdy' = rdy
             /\ UNCHANGED <<interest, pending>>
         ELSE IF res \in {"eof", "errno"} THEN
@@ -334,7 +339,7 @@ DoTry ==
             /\ pending' = IF d \in interest[o] THEN pending ELSE pending + 1
             /\ rdy' = RdyObj(rdy, o, interest[o] \cup {d}, OMask(o))
             /\ stack' = Rest /\ UNCHANGED <<rdata, dispatched>> /\ NoEvent
-  /\ UNCHANGED <<oclosed, posts, tst, tcan, tint, trep, peer, wfull, yanked, tarmed, texp, evfd, now,
+  /\ UNCHANGED <<oclosed, posts, tst, tcan, tint, trep, wfull, yanked, tarmed, texp, evfd, now,
                  inpoll, batch, bi, bphase, pq, nop, ncmd, npost, needSample, drain, dpolls, done>>
 
 DoRet ==
@@ -479,14 +484,14 @@ EnvStep(what, o) ==
             /\ rdy' = RdyObj(rdy, o, interest[o], OMask(o) \cup {"IN"})
             /\ UNCHANGED <<peer, wfull, yanked>>
        [] what = "peerclose" ->
-            /\ Kinds[o] \in {"sock", "pipeR", "pipeW"} /\ peer[o] = "open"
+            /\ Kinds[o] \in {"sock", "adp", "pipeR", "pipeW"} /\ peer[o] = "open"
             \* a TCP peer that closes with unread data in its receive queue resets the connection
-            /\ peer' = [peer EXCEPT ![o] = IF Kinds[o] = "sock" /\ wfull[o] THEN "reset" ELSE "closed"]
-            /\ rdata' = [rdata EXCEPT ![o] = IF Kinds[o] = "sock" /\ wfull[o] THEN 0 ELSE @]
+            /\ peer' = [peer EXCEPT ![o] = IF Kinds[o] \in {"sock", "adp"} /\ wfull[o] THEN "reset" ELSE "closed"]
+            /\ rdata' = [rdata EXCEPT ![o] = IF Kinds[o] \in {"sock", "adp"} /\ wfull[o] THEN 0 ELSE @]
             /\ rdy' = RdyObj(rdy, o, interest[o], {"IN", "HUP", "ERR"})
             /\ UNCHANGED <<wfull, yanked>>
        [] what = "reset" ->
-            /\ Kinds[o] = "sock" /\ peer[o] = "open"
+            /\ Kinds[o] \in {"sock", "adp"} /\ peer[o] = "open"
             /\ peer' = [peer EXCEPT ![o] = "reset"] /\ rdata' = [rdata EXCEPT ![o] = 0]
             /\ rdy' = RdyObj(rdy, o, interest[o], {"IN", "HUP", "ERR"})
             /\ UNCHANGED <<wfull, yanked>>
@@ -496,11 +501,11 @@ EnvStep(what, o) ==
             /\ rdy' = Without(rdy, o)
             /\ UNCHANGED <<rdata, peer, wfull>>
        [] what = "fillw" ->
-            /\ Kinds[o] \in {"sock", "pipeW"} /\ peer[o] = "open" /\ ~wfull[o] /\ "W" \notin interest[o]
+            /\ Kinds[o] \in {"sock", "adp", "pipeW"} /\ peer[o] = "open" /\ ~wfull[o] /\ "W" \notin interest[o]
             /\ wfull' = [wfull EXCEPT ![o] = TRUE]
             /\ UNCHANGED <<rdata, peer, rdy, yanked>>
        [] what = "drainw" ->
-            /\ Kinds[o] \in {"sock", "pipeW"} /\ peer[o] = "open" /\ wfull[o]
+            /\ Kinds[o] \in {"sock", "adp", "pipeW"} /\ peer[o] = "open" /\ wfull[o]
             /\ wfull' = [wfull EXCEPT ![o] = FALSE]
             /\ rdy' = RdyObj(rdy, o, interest[o], {"OUT"})
             /\ UNCHANGED <<rdata, peer, yanked>>
